@@ -766,6 +766,21 @@ Theorem C02_proc_init_from_source : forall sx s th node out app loom pid,
 Proof. exact proc_init_from_source. Qed.
 Print Assumptions C02_proc_init_from_source.
 
+(* the last two API calls: ovni_proc_fini (single-caller compare-exchange READY -> GONE, refused when the process is not
+   ready; try_clean_dir outside the metadata state) and ovni_flush (guards on rthread.ready and rproc.st; the flush events and
+   the write of the buffer are unit rtbuf's, the identity on the metadata state) as generated = the ProcFini / Flush cases.
+   With them call_agrees has a case for EVERY constructor of RtMetaDefs.op: C02_metadata_calls_from_source and
+   C02_metadata_runs_from_source range over the whole API. *)
+Theorem C02_proc_fini_from_source : forall sx s th node out,
+  agrees sx th out (ovni_proc_fini sx (rs_of s th node out)) (step src_cfg s th ProcFini) no_val.
+Proof. exact proc_fini_from_source. Qed.
+Print Assumptions C02_proc_fini_from_source.
+
+Theorem C02_flush_from_source : forall sx s th node out,
+  agrees sx th out (ovni_flush sx (rs_of s th node out)) (step src_cfg s th Flush) no_val.
+Proof. exact flush_from_source. Qed.
+Print Assumptions C02_flush_from_source.
+
 (* the model's constants are those of the source: the theorems above are instantiated at src_cfg, whose model version
    parses (hypothesis of C02_metadata_complete) *)
 Example C02_src_cfg_ok : VersionDefs.version_parse (Some (c_model_version src_cfg)) <> None.
